@@ -291,6 +291,55 @@ Section Calls.
           destruct V2 as (J1 & J2 & J3 & J4). repeat split; cbn [set_stk stk und fills fbs]; auto; congruence.
   Qed.
 
+  (** try with any number of handlers: related runs of the functions give related tries *)
+  Lemma vsim_set_stk a b l : vsim a b -> vsim (set_stk a l) (set_stk b l).
+  Proof. intros (E1 & E2 & E3 & E4). repeat split; cbn [set_stk stk und fills fbs]; auto. Qed.
+
+  Lemma REL_try_loop h h' (ex ex' : node -> rt -> res) (g : node -> node) ts any :
+    (forall n a b, vsim a b -> hid a = h -> hid b = h' -> REL h h' (ex n a) (ex' (g n) b)) ->
+    forall hs sf f te s s', vsim s s' -> hid s = h -> hid s' = h' ->
+    REL h h' (try_loop ex ts any sf f hs te s)
+             (try_loop ex' ts any sf (g f) (map (fun a : sig * node => (fst a, g (snd a))) hs) te s').
+  Proof.
+    intros Hex. induction hs as [|[sh hnd] hs IH]; intros sf f te s s' V Ha Hb;
+      cbn [try_loop map fst snd]; pose proof V as (E1 & E2 & E3 & E4); unfold need; rewrite <- ?E1.
+    - destruct (_ && _); [apply REL_err; auto|].
+      apply Hex; auto. apply vsim_set_stk; auto.
+    - destruct (negb (Nat.min (sa ts) (sa sf) <=? length (stk s))); [apply REL_err; auto|].
+      unfold clean_of. rewrite <- ?E1, <- ?E2.
+      pose proof (Hex f s s' V Ha Hb) as R.
+      destruct (ex f s) as [a|c a| |]; cbn [REL] in R; try exact I.
+      + destruct R as (Ha2 & b & -> & Vab & Hb2). pose proof Vab as (G1 & G2 & G3 & G4). rewrite <- ?G1.
+        destruct (_ && _); [apply REL_err; auto|].
+        apply REL_ok; auto. apply vsim_set_stk; auto.
+      + destruct R as (Ha2 & b & -> & Vab & Hb2). pose proof Vab as (G1 & G2 & G3 & G4).
+        unfold set_su. cbn [stk und fills fbs depth]. rewrite <- ?G1, <- ?G2, <- ?G3.
+        set (kA := keep_bottom _ (stk a)). set (uA := keep_bottom _ (und a)).
+        assert (Hfb : hd 0 (fbs a) = hd 0 (fbs b)) by exact G4.
+        set (sA := {| stk := kA; und := uA; fills := fills a; fbs := fbs a; depth := depth a |}).
+        set (sB := {| stk := kA; und := uA; fills := fills a; fbs := fbs b; depth := depth b |}).
+        assert (VAB : vsim sA sB) by (repeat split; auto).
+        assert (HA : hid sA = h) by (rewrite <- Ha2; reflexivity).
+        assert (HB : hid sB = h') by (rewrite <- Hb2; unfold hid, sB; cbn [fills fbs depth]; rewrite G3; reflexivity).
+        destruct (te && (sa sf <=? sa ts)); cbn [andb].
+        * destruct (negb (sa ts - sa sf + 1 <=? length kA)); [apply REL_err; auto|].
+          cbn [set_stk stk und fills fbs depth].
+          set (kB := remove_n 1 (sa ts - sa sf + 1) kA).
+          assert (V2 : vsim (set_stk sA kB) (set_stk sB kB)) by (apply vsim_set_stk; auto).
+          change {| stk := kB; und := uA; fills := fills a; fbs := fbs a; depth := depth a |} with (set_stk sA kB).
+          change {| stk := kB; und := uA; fills := fills a; fbs := fbs b; depth := depth b |} with (set_stk sB kB).
+          destruct c.
+          -- cbn [set_stk stk]. destruct (_ && _); [apply REL_err; auto|].
+             apply REL_err; auto. apply vsim_set_stk; auto.
+          -- cbn [set_stk stk]. destruct (_ && _); [apply REL_err; auto|].
+             apply IH; auto. apply vsim_set_stk; auto.
+        * destruct c.
+          -- cbn [stk]. destruct (_ && _); [apply REL_err; auto|].
+             apply REL_err; auto. apply vsim_set_stk; auto.
+          -- cbn [stk]. destruct (_ && _); [apply REL_err; auto|].
+             apply IH; auto. apply vsim_set_stk; auto.
+  Qed.
+
   Lemma REL_without_fill (body body' : rt -> res) a b :
     vsim a b ->
     (forall a1 b1, vsim a1 b1 -> novis a1 -> stk a1 = stk a -> hid a1 = (fills a, length (fills a) :: fbs a, depth a) ->
@@ -430,7 +479,19 @@ Section Calls.
       + intros Hv a Ha. eapply novis_hid; eauto.
       + apply REL_ok; auto.
     - (* Mod *)
-      destruct m; cbn [Exec.exec];
+      destruct (match m with MTry => true | _ => false end) eqn:Em.
+      { destruct m; try discriminate Em.
+        destruct args as [|[sg1 f1] [|[sg2 f2] hs]]; cbn [Exec.exec map fst snd sets_fill]; try exact I.
+        set (g := inlc asm1 k (vis || false)).
+        assert (Emap : map fst (map (fun a : sig * node => (fst a, g (snd a))) hs) = map fst hs).
+        { rewrite map_map. apply map_ext. reflexivity. }
+        rewrite Emap. norm E1 E2.
+        destruct (negb (sa (fst (try_sig (sg1 :: sg2 :: map fst hs))) <=? length (stk s))); [apply REL_err; auto|].
+        refine (REL_try_loop (hid s) (hid s') (exec asm1 fuel1) (exec asm2 fuel2) g _ _ _
+                  ((sg2, f2) :: hs) sg1 f1 false s s' V eq_refl eq_refl).
+        intros n a b Vab Ha Hb. apply (IH_use _ _ IH); auto.
+        intros Hv. rewrite ?orb_false_r in Hv. eapply novis_hid; [exact Ha | auto]. }
+      destruct m; try discriminate Em; cbn [Exec.exec];
         destruct args as [|[sg1 f1] [|[sg2 f2] [|[sg3 f3] rest]]]; cbn [map fst snd sets_fill]; try exact I.
       all: try (match goal with |- REL _ _ (match iter_ao ?mk ?sg with _ => _ end) _ =>
                   destruct (iter_ao mk sg) as [[na no]|]; [|exact I] end;
